@@ -162,6 +162,16 @@ fn limit_case(ctx: &mut Ctx, text: &str) {
     if first != again { ctx.violation("determinism/limit-program-differs-between-runs", "a program at a format limit gave different results in two consecutive runs", json!({"text": text.chars().take(300).collect::<String>(), "first": first, "again": again})) }
     ctx.fingerprint(&format!("{:016x}", fnv(text.as_bytes())), &first);
     ctx.nontrivial(text.as_bytes());
+    // and as a real process (`fml run <file>` of THIS build profile, on the process's own main-thread
+    // stack): exit status, signal and stdout go into the table too, so that the driver compares what
+    // the debug and the release binary really do with programs at the limits
+    // (the second release run uses the same binary as the first: no need to repeat the processes there)
+    if std::env::var("VERIF_RUN_INDEX").map_or(false, |v| v == "1") { return }
+    let f = super::super::cli::write_file(&ctx.scratch, "limit.fml", text.as_bytes());
+    let exe = ctx.exe.clone();
+    let res = super::super::cli::run(&exe, &["run", f.to_str().unwrap()], None, None, &[], std::time::Duration::from_secs(120));
+    ctx.count("cli_pipelines", 1);
+    ctx.fingerprint(&format!("{:016x}/process", fnv(text.as_bytes())), &format!("exit {:?} signal {:?} stdout {:016x}", res.code, res.signal, fnv(&res.stdout)));
 }
 
 pub fn run(ctx: &mut Ctx) {
